@@ -582,6 +582,55 @@ func c09Enumerate(sh *evidence.Shard) {
 		}
 	}
 
+	// Part 6: every printable ASCII byte inside a name, in the pattern and in the query (added
+	// after the independently seeded change C09-4: a hand-rolled lower-casing of the queried name
+	// that maps '_' to DEL while patterns are lower-cased with strings.ToLower)
+	{
+		p6 := sh.Part("name-characters", "enum")
+		p6.Alphabet = map[string]any{"byte": "every c in 0x21..0x7e the rule grammar accepts inside an address", "patterns": []string{"x<c>y.com", "suffix:x<c>y.com", "*<c>y.com"},
+			"queries": []string{"x<c>y.com", "X<C>Y.COM (upper-cased)", "sub.x<c>y.com", "x<c^0x20>y.com", "x<c>y.com.", "xy.com"}}
+		p6.Bounds = map[string]any{"acl": "A(<pattern>); B(all)", "lookups": "each with an empty decision cache, tcp/80 and udp/53"}
+		var cidx int64
+		for ch := byte(0x21); ch <= 0x7e; ch++ {
+			for pi, mk := range []func(string) string{
+				func(m string) string { return "x" + m + "y.com" },
+				func(m string) string { return "suffix:x" + m + "y.com" },
+				func(m string) string { return "*" + m + "y.com" },
+			} {
+				cidx++
+				if !env.Mine(cidx) {
+					continue
+				}
+				rules := []c09Rule{{Ob: "A", Addr: mk(string(ch))}, {Ob: "B", Addr: "all"}}
+				ref, rerr := c09RefCompileAll(rules)
+				impl, err := c09Compile(rules, 2)
+				if err != nil || rerr != nil {
+					p6.Count("bytes_the_grammar_does_not_accept_in_an_address", 1)
+					continue
+				}
+				names := []string{"x" + string(ch) + "y.com", strings.ToUpper("x" + string(ch) + "y.com"), "sub.x" + string(ch) + "y.com", "x" + string(ch) + "y.com.", "xy.com"}
+				if o := ch ^ 0x20; o >= 0x21 && o <= 0x7e {
+					names = append(names, "x"+string(o)+"y.com")
+				}
+				bad := false
+				for _, name := range names {
+					for _, pr := range []struct{ proto, port int }{{c09ProtoTCP, 80}, {c09ProtoUDP, 53}} {
+						q := c09Query{Name: name, Proto: pr.proto, Port: pr.port}
+						impl.Cache.Purge()
+						got := c09Ask(impl, q)
+						want := c09WantAns(rules, c09RefEval(ref, q))
+						p6.Evaluations++
+						if got != want && !bad {
+							bad = true
+							c.violate(p6, "a name containing byte "+fmt.Sprintf("%#02x", ch)+" is decided differently from the reference", &c09Replay{Kind: "fresh", Rules: rules, CacheSize: 2, Query: q, Want: want.String(), Got: got.String()})
+						}
+					}
+				}
+				p6.Class(ch, pi, bad)
+			}
+		}
+	}
+
 	// Part 4 (thorough): fresh lookups, lists of length 3
 	if th {
 		p4 := sh.Part("fresh-len3", "enum")
@@ -601,7 +650,7 @@ func c09Enumerate(sh *evidence.Shard) {
 
 func c09ReplayOne(part string, raw json.RawMessage) (bool, bool, string) {
 	switch part {
-	case "fresh-len012", "fresh-len3", "cache-bfs", "prod-cache", "wildcard-grid":
+	case "fresh-len012", "fresh-len3", "cache-bfs", "prod-cache", "wildcard-grid", "name-characters":
 	default:
 		return false, false, ""
 	}
